@@ -36,6 +36,8 @@ def jobs(tier):
     for shape, K in [("single", 3), ("flat2", 3), ("nested3", K3), ("order2", 3), ("flat3", K3)]:
         for P in ([16384] if tier == "quick" else [16384, 32768]):
             out.append(("e2e.%s.P%d" % (shape, P), "job_e2e", dict(shape=shape, P=P, K=K, order="symbolic", progress=0)))
+    for shp in cr.scheme_shapes(["flat2", "nested3", "around3"], tier):
+        out.append(("e2e.%s.P16384" % shp, "job_e2e", dict(shape=shp, P=16384, K=1 if shp.startswith("nested3") else 2, order="reversed", progress=0)))
     out.append(("e2e.second-create-after-nested-add", "job_second", dict(P=16384, K=2)))
     out.append(("e2e.hidden2.P16384", "job_e2e", dict(shape="hidden2", P=16384, K=2, order="reversed", progress=0)))
     out.append(("e2e.dir1.P16384", "job_e2e", dict(shape="dir1", P=16384, K=3, order="reversed", progress=0)))
